@@ -30,7 +30,7 @@ SAMPLER_DEFAULTS = {
 }
 HISTORY_FREE = ["Halton", "RSequence", "RandomUniform", "ParticleSwarm"]
 ALL_SAMPLERS = list(SAMPLER_DEFAULTS)
-SAMPLER_DEFAULTS.update({"HaltonB": {}, "RSequenceB": {}, "RandomUniformB": {}, "Ballast": {}})
+SAMPLER_DEFAULTS.update({"HaltonB": {}, "RSequenceB": {}, "RandomUniformB": {}, "Ballast": {}, "Walkers": {}})
 
 
 def sampler_class(name):
@@ -46,7 +46,7 @@ def sampler_class(name):
 
     from vf import samplers_extra as sx
 
-    extra = {"HaltonB": sx.HaltonB, "RSequenceB": sx.RSequenceB, "RandomUniformB": sx.RandomUniformB, "Ballast": sx.Ballast}
+    extra = {"HaltonB": sx.HaltonB, "RSequenceB": sx.RSequenceB, "RandomUniformB": sx.RandomUniformB, "Ballast": sx.Ballast, "Walkers": sx.Walkers}
     if name in extra:
         return extra[name]
     return {"Halton": h.HaltonSampler, "RSequence": rs.RSequenceSampler, "RandomUniform": ru.RandomUniformSampler,
@@ -112,6 +112,8 @@ def make_scheduler(cfg, samplers):
     sch = cfg.get("scheduler", "rr")
     if sch == "rr":
         return None
+    if sch == "rr_inplace":
+        return InPlaceRoundRobin()(samplers)
     from black_it.schedulers.rl.agents.epsilon_greedy import MABEpsilonGreedy
     from black_it.schedulers.rl.envs.mab import MABCalibrationEnv
     from black_it.schedulers.rl.rl_scheduler import RLScheduler
@@ -123,11 +125,48 @@ def make_scheduler(cfg, samplers):
     return RLScheduler(samplers, agent=agent, env=env, random_state=sch.get("sched_seed"))
 
 
+def InPlaceRoundRobin():
+    """A user-defined scheduler (round-robin) whose update() hook post-processes what it is given IN PLACE (rewards = -losses,
+    shifted): legal for a user - the arguments are his to use - as long as the calibrator hands over copies or throw-aways."""
+    from black_it.schedulers.round_robin import RoundRobinScheduler
+
+    class _InPlaceRoundRobin(RoundRobinScheduler):
+        def update(self, batch_id, new_params, new_losses, new_simulated_data):
+            for arr in (new_losses, new_params, new_simulated_data):
+                a = np.asarray(arr)
+                if a.dtype.kind == "f" and a.flags.writeable and a.size:
+                    a *= -1.0
+                    a -= a.max()
+            return super().update(batch_id, new_params, new_losses, new_simulated_data)
+
+    return _InPlaceRoundRobin
+
+
+class SubclassedCalibrator:
+    """Factory of a user subclass of Calibrator that changes how a batch is simulated (common random numbers within a batch)."""
+
+    _cls = None
+
+    @classmethod
+    def get(cls):
+        if cls._cls is None:
+            from black_it.calibrator import Calibrator
+
+            class CRNCalibrator(Calibrator):
+                def simulate_model(self, params):
+                    out = super().simulate_model(params)
+                    return out + 0.125          # a visible, deterministic difference from the base class
+            cls._cls = CRNCalibrator
+        return cls._cls
+
+
 def build(cfg, samplers=None):
     """cfg keys: lineup [sampler specs], scheduler 'rr'|{rl...}, loss, model, dims, D, T, ensemble, seed, n_jobs,
     verbose, saving_folder, sim_length, convergence_precision."""
     from black_it.calibrator import Calibrator
 
+    if cfg.get("subclass"):
+        Calibrator = SubclassedCalibrator.get()  # noqa: N806
     if samplers is None:
         samplers = [make_sampler(s) for s in cfg["lineup"]]
     sched = make_scheduler(cfg, samplers)
@@ -154,6 +193,9 @@ def build(cfg, samplers=None):
 
 def restore(folder, cfg):
     from black_it.calibrator import Calibrator
+
+    if cfg.get("subclass"):
+        Calibrator = SubclassedCalibrator.get()  # noqa: N806
 
     with quiet():
         return Calibrator.restore_from_checkpoint(str(folder), models.MODELS[cfg.get("model", "gauss2")])
